@@ -7,6 +7,8 @@ From Coq Require Import ZArith List Bool.
 From HV Require Import model.Export model.ExportNum model.ExportUF spec.ExportS spec.ExportCanon spec.ModelAttrsS
   gen.ModelAttrs proofs.ExportP proofs.ModelAttrsP proofs.ExportOrderP proofs.ExportNumP proofs.ExportCanonP
   proofs.ExportUFP proofs.ExportKeysP.
+From Coq Require Import NArith.
+From HV Require Import lib.Harness model.ExportMangle proofs.ExportMangleP.
 
 (* the union-find labelling names two ports alike exactly when the links join them *)
 Theorem C12_components : forall ls p q, rep ls p = rep ls q <-> conn ls p q.
@@ -202,3 +204,42 @@ Print Assumptions C12_metadata_carried.
 Theorem C12_binding_attrs_match : attrs_match_b rs_reads rs_built py_fields = true.
 Proof. exact attrs_match. Qed.
 Print Assumptions C12_binding_attrs_match.
+
+(* ---- the spelling of function symbols (model/ExportMangle.v: mangle name idx = "_<name>_<idx>", the code's
+   _mangle_name; names are ANY strings over code points).  The model above abstracts the symbol of a function to
+   the index of its defining node; these theorems are what the abstraction stands on. *)
+
+(* injective in the pair (name, node index): `main`, the empty name, names with underscores and digits, a name
+   spelt like the mangled form of another function — no two functions of a module share a symbol *)
+Theorem C12_mangle_injective :
+  forall n1 i1 n2 i2, mangle n1 i1 = mangle n2 i2 -> n1 = n2 /\ i1 = i2.
+Proof. exact mangle_inj. Qed.
+Print Assumptions C12_mangle_injective.
+
+(* for every assignment nm of names to nodes, the export with the symbols spelt as the code spells them meets
+   every clause of the specification (clause 5: the symbol a Call / LoadFunc applies is the symbol of exactly the
+   definition / declaration its static edge comes from) *)
+Theorem C12_mangled_export_meets_spec :
+  forall h (nm : Z -> list N),
+    valid_b h = true -> valid_order_b h = true -> order_ports_b h = true -> stars_b h = true ->
+    spec_b port_eqb (list_eqb N.eqb) h (export_mangled nm h) = true.
+Proof. exact mangled_spec. Qed.
+Print Assumptions C12_mangled_export_meets_spec.
+
+(* and the comparison the correspondence check makes does not see the spelling: index or mangled string *)
+Theorem C12_mangled_export_same_up_to_renaming :
+  forall h (nm : Z -> list N),
+    canon port_eqb (list_eqb N.eqb) (export_mangled nm h) = canon port_eqb Z.eqb (export h).
+Proof. exact mangled_canon. Qed.
+Print Assumptions C12_mangled_export_same_up_to_renaming.
+
+(* the two sites that derive a function's symbol (definition / declaration: gd; call / load: the identity here)
+   must agree: a valid module (`retry` calls and loads `main`) on which clause 5 holds for the code's spelling
+   and fails as soon as the definition site spells `main` plainly *)
+Theorem C12_symbol_sites_must_agree :
+  exists h nm gd,
+    valid_b h = true /\
+    applied_symbols_defined (list_eqb N.eqb) h (export_mangled nm h) = true /\
+    applied_symbols_defined (list_eqb N.eqb) h (sites_region gd (fun s => s) (export_mangled nm h)) = false.
+Proof. exact symbol_sites_must_agree. Qed.
+Print Assumptions C12_symbol_sites_must_agree.
